@@ -303,8 +303,13 @@ def build(tier):
     # reader / writer symmetry of every serialisable class (field sequences derived from the ASTs of both bodies)
     sym_targets, sym_summary = symmetry.targets()
     targets += sym_targets
+    import paramrw
+    targets += paramrw.targets()
+    # the tensor reader once more, on back end B (integers with their own * and div): the dims guard in both directions
+    import guard
+    guard_vcs, guard_fns = guard.build(tier)
     return {
-        'targets': targets, 'vcs': lemma_vcs(),
+        'targets': targets, 'vcs': lemma_vcs() + guard_vcs, 'functions': guard_fns,
         'decided': [
             'tensor reader (double rank 1/2/4, int64 rank 1; NO assumption on the header dims since the repair 81b3596): the reader itself rejects a negative dimension and an overflowing '
             'element / byte count without touching the tensor (resize is reached at most once and only with validated dims); never reports good a stream that had failed or is short; accepted => version, rank, sizeof(scalar) '
@@ -325,6 +330,23 @@ def build(tier):
             'in reader and writer (value(s), min, max, minLE, maxLE[, valueLE]); write(string_view): uint32 length + chars',
             'tensor writer (repair c547eaf): a dimension above INT32_MAX => failbit and nothing written; dims that fit are never refused by that guard; no precondition on the magnitude of dims',
             'lemma (SMT): dims that pass the reader\'s division guard have an exact product <= max_size and every running product fits int64 (ranks 1-4, sizeof 8 and 1)',
+            'tensor reader on back end B (specs/C15/guard.py; SMT over Int, the real body of nano::read(istream&, tensor_t&) for double rank 1/2/4 and int8 rank 1/3, thorough: + double rank 3, int64 rank 1; '
+            'the dims loop executed exactly trank times, products and quotients are the integers\' own): SOUNDNESS accepted => version / rank / sizeof(scalar) are the writer\'s, every dim >= 0, '
+            'sizeof * prod(dims) fits int64, exactly header + sizeof * prod(dims) bytes consumed (all supplied), stored hash == hash(payload slice); ROUND TRIP accepted => dims[k] of the tensor is the dim of '
+            'the stream and size() is their product FOR EVERY PRIOR CONTENT of the destination (any dims / size / block, also a moved-from object); COMPLETENESS (non-empty tensors) a valid header passes the guard '
+            '(payload read attempted once, at the end of the header, with count == prod(dims)) and a valid complete stream with a matching hash is ACCEPTED -- a stricter guard (> -> >=) fails these; '
+            'DEFINEDNESS every division by a header-derived value has a non-zero divisor, `total *= dims[i]` never overflows, no value-changing conversion; resize is reached at most once and only with validated '
+            'dims, a rejected header leaves the tensor untouched; istream::read gets a non-negative count and a block of that many scalars',
+            'parameter_t::read / write (src/parameter.cpp; specs/C15/paramrw.py, param_rw.h; variant storage as {index, a1..a6}, std::visit / switch extracted arm by arm): '
+            'parameter_roundtrip_alt0..6 (one target per alternative written) = the property itself on both real bodies inlined down to istream::read / ostream::write: for EVERY well-formed parameter p (any alternative) and EVERY prior content of the '
+            'destination q, write(p) then read(q) yields q == p -- same alternative (an empty parameter resets a used object), name, every member of the active record (doubles by bit pattern), enum value and domain, '
+            'string value -- consumes exactly the bytes and as many fields as were written, and does not throw unless an allocation fails; '
+            'parameter_read (any stream, any destination): failed stream => exception, normal return => stream good, unknown tag => exception, normal return => -1 <= tag <= 5 and the ACTIVE ALTERNATIVE IS THE ONE OF THE TAG '
+            '(index == tag + 1) whatever the destination held before, the name is the stored one; '
+            'parameter_write (contract enforced): old failure => exception, normal return => good; tag == index - 1, name (length, chars), then per alternative exactly the fields of the shared layout table '
+            '(NV_REC_OFF / NV_REC_W / NV_PAR_NFIELDS: offsets, widths, count) with the members as values in wire order; enum: value string then domain vector; string: value string',
+            'double-valued range helpers ::read / ::write (range_t<double>, pair_range_t<double>) and read(double&) / write(double): same contracts as the int64 ones, values compared by bit pattern '
+            '(targets read_f64, write_f64, param_read_frange, param_read_fprange, param_write_frange, param_write_fprange): short / failed stream => exception, members <-> wire fields in the layout table\'s order',
             'tensor_read_dims_* and tensor_write_dims_i8_1 pin the two repaired defects: on the pre-fix library (72b52bf) they fail and replay natively (negative count handed to istream::read; '
             'header dim -2^31 for a 2^31-element tensor)',
         ],
@@ -332,12 +354,18 @@ def build(tier):
             'bit-identical predictions of re-read models (object graphs: learners, gboost, wlearners)',
             'detection of altered payload bytes is only as strong as the 64-bit hash: proved is that the comparison is made on exactly the payload, not that collisions are impossible',
             'header corruption is not covered by the hash at all (a corrupted dim of an empty tensor is accepted: format property, shown natively in the replay)',
-            'that every VALID header is accepted by the guard (the quotient max_size / dim is uninterpreted in CBMC): a stricter guard (> -> >=) is not noticed',
+            'GENUINE DEFECT kept as failing obligations (known_findings.txt, specs/C15/FINDING_empty_tensor_rejected.md): COMPLETENESS (EMPTY tensor) -- the reader rejects the valid 0-element stream of a tensor '
+            'whose leading dims multiply to more than max_size before the zero dim (double 1073741825 x 1073741825 x 0 is written and read back with failbit; rank >= 3 at sizeof 8, rank >= 4 at sizeof 1)',
             'residual after the repair: nano::size multiplies right-to-left while the guard runs left-to-right; header dims (0, 2^31-1, 2^31-1, 2^31-1) pass the guard and the inner product '
             'overflows int64 inside detail::product (undefined behaviour by the letter, UBSan reports it; the result is multiplied by 0, size() = 0) -- recorded as an assumption, not an obligation',
             'symmetry says nothing about a member that BOTH bodies forget, nor about the values transferred (only which field goes through which overload in which order)',
-            'parameter_t::read / write themselves (variant storage, switch over the type tag: no fixed field sequence, the symmetry walker refuses branches), double-valued ranges, read(unique_ptr<T>) (factory lookup), '
-            'write(vector<T>) (std::any_of + lambda), read(vector<string>), feature / learner / model readers (per-field critical(!read...) pattern only)',
+            'parameter_t::read against an ARBITRARY stream, per arm (every member == the field at its wire offset; exactly the tag\'s layout consumed, hence a truncated record throws at this level; completeness): '
+            'written as assertions (git history of specs/C15/paramrw.py) but CBMC did not finish in 300 s, so they are NOT claimed; what stands in: the round trip on written streams, the range helpers\' own '
+            'contracts (short => exception, members == fields) and the protocol clauses of parameter_read.  The AST-level symmetry walker still refuses branches (parameter_t is covered by the targets above instead)',
+            'read() stores the record from the stream WITHOUT the domain check: a corrupted but complete stream yields any record -- min > max, value outside [min, max], value1 > value2, NaN / inf bounds and values, '
+            'an enum value that is not in its domain, an empty domain -- i.e. parameter_t objects that no constructor or assignment would accept (proved shape: members == stored fields; nothing more is checked by the code)',
+            'read(unique_ptr<T>) (factory lookup), write(vector<T>) (std::any_of + lambda), read(vector<string>): here ASSUMED contracts (stubs nv_read_pstrs / nv_write_pstrs); feature / learner / model readers: '
+            'per-field critical(!read...) pattern and symmetry only; completeness of the member lists against the class definitions (task d) not done',
         ],
         'assumptions': [
             'std::istream::read(dst, n): failed stream extracts nothing; if len-pos >= n stores the n bytes at pos and advances, else sets fail and never reads at or beyond len (stub nv_istream_read)',
@@ -359,6 +387,15 @@ def build(tier):
             'nano::write(stream, string_view) inside the parameter writers: two fields (length, chars) or failure (stub nv_write_name; the real function is verified in target write_string)',
             'write(string_view) precondition: the length fits the uint32 it is stored in',
             'x86-64 little endian; int = 32, long = 64 bits (type_facts.cpp)',
+            'back end B reader (guard.py): callees replaced by the contracts PROVED for them by the CBMC targets (read_u32 / read_u64 / read_cast_n / read_ptr_*: accepted <=> good and enough bytes, value = stored value, '
+            'position advances by exactly the width; the payload read contract is used for counts up to 2^47 / sizeof, CBMC proves it for counts <= 2^40: size bound); tensor resize / size / data as in tensor.h with '
+            'nano::size(dims) = the mathematical product (C16 proves nano::size; right-to-left wrap of intermediate products as above); std::bad_alloc leaves the function (no claim about the tensor then); '
+            'detail::hash_version() is executed in place; sizeof(T) from the x86-64 table',
+            'parameter targets: std::string = (content identity, length), std::vector<std::string> = (content identity, serialised size in [8, 2^46 + 8)); nano::read / nano::write of a string / string vector are stubs '
+            '(nv_read_pstr / nv_read_pstrs / nv_write_pstr / nv_write_pstrs): failed stream does nothing, short => fail, resize may throw, accepted => stored value and exact byte count; '
+            'parameter_roundtrip: the bytes appended by ostream::write DEFINE the content istream::read sees at the same offsets (std::stringstream; assume sites in nv_ostream_write / nv_write_pstr* under NV_ROUNDTRIP, '
+            'guarded by the harness canary); string lengths fit uint32; LEorLT flags are 0 / 1 (a two-alternative variant is never valueless); an exception thrown by a stub lets execution continue with nv_thrown set '
+            '(over-approximation: every later obligation is still checked, postconditions are guarded by nv_thrown)',
             'size bounds that keep position arithmetic inside int64: stream length <= 2^46 bytes, element counts <= 2^40, allocations above 2^47 bytes throw',
         ],
         'trusted': [],
